@@ -294,8 +294,8 @@ func (ex *Explorer) wantSample() bool {
 	if len(ex.stats.Samples) >= ex.maxSamples {
 		return false
 	}
-	if len(ex.stats.Samples) < 1 {
-		return true
+	if len(ex.stats.Samples) < 1 || ex.maxSamples > 100 {
+		return true // validation sweeps (VP_MAXSAMPLES) take every path
 	}
 	// seeded, sparse choice of further paths
 	h := uint64(ex.pathSeq)*0x9E3779B97F4A7C15 + uint64(ex.sampleSeed)*0xBF58476D1CE4E5B9
